@@ -33,6 +33,30 @@ CLAIMED = {
             "Trusted: Coq kernel; hand model of *Sel.match / Selection / sel / Fn.filter / Distribution.filter / Fn.merge in coq/Model/Gfi.v tied to /repo by "
             "harness/worker_sel.py + coq/Model/CorrSel.v (runs natively, no overlay). No axioms.",
             "Coq proof by structural induction over selection syntax and choice maps + exhaustive/differential correspondence (vm_compute)", "7/C16"),
+    "C06": ("Theorems: the keys a seeded call hands to its sites (hence its result) do not depend on the global key counter or the staging cache (C06_seed_pure, C06_repeatable); a seeded call "
+            "only advances the counter; incomparable root keys give pairwise incomparable site keys. eager = jit = vmap-over-keys is JAX's contract, exercised by the correspondence "
+            "(same key terms in all three modes, across interleavings with unseeded sampling, other seeded runs and counter jumps).",
+            "Trusted: Coq kernel; hand model coq/Model/Seed.v of Seed.eval_jaxpr_seed (split per site, sub-key per cond, fold_in per scan iteration, fall-through for uninterpreted "
+            "higher-order primitives), of the lowering rule and of the JVP rule's inlining; keys are terms of the key algebra with split(k)[i] identified with fold_in(k,i) (true for "
+            "partitionable threefry, observed by the harness); distinct terms = independent streams is the PRNG idealisation (JAX's contract), not proved; harness/worker_seed.py maps raw key "
+            "data back to terms by BFS over real split/fold_in. No axioms.",
+            "Coq proof over a mini-Jaxpr model + key-echo census correspondence (vm_compute)", "7/C06"),
+    "C07": ("Theorem C07_sites_get_distinct_streams: for EVERY program shape (sequences, conds, nested scans, cond in scan), every root key and every branch choice, the keys of all "
+            "sample-site instances of one seeded run are pairwise incomparable terms (none equal to or derived from another) strictly derived from the root (induction over the Jaxpr). "
+            "Statistical independence / correct marginal law additionally need the PRNG idealisation and TFP's samplers (not proved); vectorized lanes get one key + extended sample_shape (C08).",
+            "Trusted: Coq kernel; hand model coq/Model/Seed.v of Seed.eval_jaxpr_seed (split per site, sub-key per cond, fold_in per scan iteration, fall-through for uninterpreted "
+            "higher-order primitives), of the lowering rule and of the JVP rule's inlining; keys are terms of the key algebra with split(k)[i] identified with fold_in(k,i) (true for "
+            "partitionable threefry, observed by the harness); distinct terms = independent streams is the PRNG idealisation (JAX's contract), not proved; harness/worker_seed.py maps raw key "
+            "data back to terms by BFS over real split/fold_in. No axioms.",
+            "Coq proof by induction over the mini-Jaxpr + key-echo census correspondence (vm_compute)", "7/C07"),
+    "C14": ("Theorems: compiling any traced program containing a sample primitive at any depth raises (C14_lowering_raises, by the model of JAX's recursive lowering); seed either removes "
+            "every site or leaves sites only under constructs it does not interpret, and then compiling raises (C14_seed_removes_or_raises); the full property holds for programs without "
+            "differentiation (C14_partial) and is REFUTED with grad/jvp (C14_full_refuted = known finding K2: jit(grad f) bakes a key).",
+            "Trusted: Coq kernel; hand model coq/Model/Seed.v of Seed.eval_jaxpr_seed (split per site, sub-key per cond, fold_in per scan iteration, fall-through for uninterpreted "
+            "higher-order primitives), of the lowering rule and of the JVP rule's inlining; keys are terms of the key algebra with split(k)[i] identified with fold_in(k,i) (true for "
+            "partitionable threefry, observed by the harness); distinct terms = independent streams is the PRNG idealisation (JAX's contract), not proved; harness/worker_seed.py maps raw key "
+            "data back to terms by BFS over real split/fold_in. No axioms.",
+            "Coq proof over a mini-Jaxpr model + outcome-class correspondence (vm_compute)", "7/C14"),
     "C09": ("Theorems: accept iff log u < min(0, log_alpha) (all kernels); the MH balance identity a*min(1,b/a) = b*min(1,a/b); the weight mh uses is the MH log ratio of the "
             "regenerate-from-prior proposal (via C04); mala's log_alpha is the MH log ratio of the Langevin proposal with drift eps^2/2*grad, scale eps, one noise per coordinate; "
             "n leapfrog steps are reversible under momentum flip for ANY gradient function over ANY commutative ring; rejected moves return the input; unselected coordinates untouched. "
